@@ -107,6 +107,9 @@ def build(c, company, dz=None, line_order=None):
             'types': types, 'assign': assign, 'power': {'asm': power}}
 
 
+LABELS = {}       # first pin record labelled with another assembly's id seen by trace() in this case
+
+
 def snapshot(a):
     reg = a.active_region
     parts = [reg.temp['coolant_int'].ravel(), reg.temp['duct_mw'].ravel(), reg.temp['duct_surf'].ravel()]
@@ -145,6 +148,13 @@ def trace(scn, ids=None, order=None):
             for a in rx.assemblies:
                 if a.id in out:
                     out[a.id].append(snapshot(a))
+                # the pin records an assembly keeps are labelled with ITS id (column 0 of pin_temps is what
+                # temp_pin.csv files them under)
+                reg = a.active_region
+                if hasattr(reg, 'pin_model') and hasattr(reg, 'pin_temps') and not LABELS.get('bad'):
+                    lab = np.asarray(reg.pin_temps[:, 0])
+                    if np.any(lab != a.id):
+                        LABELS['bad'] = (int(a.id), float(lab[0]), i)
         return out, np.array(rx.z), float(rx.req_dz), [a.id for a in rx.assemblies]
 
 
@@ -173,8 +183,14 @@ def run_company(c):
     comp = COMPANY[c['company']]
     dz = common_step(c, [build(c, []), build(c, comp)])
     tid = S.asm_id(*TPOS[c.get('tpos', 'centre')])
+    LABELS.clear()
     ref, zr, _, _ = trace(build(c, [], dz), ids={tid})
     got, zg, _, _ = trace(build(c, comp, dz), ids={tid})
+    if LABELS.get('bad'):
+        V.append(violation('records-labelled-with-another-id', c, 'pin records of assembly %d carry the id %g '
+                           '(plane %d): clones of a type keep the label of their template'
+                           % LABELS['bad'], LABELS['bad'][1], LABELS['bad'][0], 0.0,
+                           site='assembly.py:Assembly.clone'))
     if not np.array_equal(zr, zg):
         V.append(violation('harness-planes-differ', c, 'twin runs do not share the axial planes'))
         return r
